@@ -9,7 +9,7 @@ ANCHORS = ["mpf/core/events.py", "mpf/core/mode.py", "mpf/core/mode_controller.p
            "mpf/config_players/queue_relay_player.py"]
 FUNCTIONS = ["EventManager.post_queue", "EventManager._process_queue_event", "EventManager._run_handlers_sequential", "QueuedEvent.wait/clear",
              "EventManager.add_async_handler/_async_handler_coroutine/_async_handler_done", "EventManager.post_relay", "EventManager.post_boolean",
-             "EventManager._run_handlers (relay/boolean branches)", "Mode.start/_started (wait queue)", "Mode.stop/_stopped (queue release)"]
+             "EventManager._run_handlers (relay/boolean branches)", "EventManager.stop", "Mode.start/_started (wait queue)", "Mode.stop/_stopped (queue release)"]
 EXPLANATION = ("Bounded symbolic execution (CrossHair/z3) of the real queue/relay/boolean dispatch on a symbolic-time asyncio loop: three "
                "handlers of symbolic kind (sync, wait then clear after a symbolic real delay, async coroutine sleeping a symbolic delay), symbolic "
                "integer priorities, registered and posted kwargs, an optional nested queue event posted from a handler and a second queue event posted "
@@ -165,10 +165,15 @@ def body_relay_bool(S, loop, part):
         newkey = part["newkey"] if "newkey" in part else [bool(S.bool("adds_new_key%d" % i)) for i in range(3)]
         seen_w = []
 
+        bare = bool(part.get("bare"))
+        regkw = [bool(S.bool("handler%d_has_registered_kwargs" % i)) for i in range(3)] if bare else [False] * 3
+        seen_k = []
+
         def mk(i):
-            def h(v, w=None, **kwargs):
+            def h(v=0, w=None, k=None, **kwargs):
                 seen.append((i, v))
                 seen_w.append((i, w))
+                seen_k.append((i, k))
                 if ret_kind[i] == 0:
                     if newkey[i]:
                         return {"v": v + add[i], "w": 100 + i}
@@ -178,10 +183,21 @@ def body_relay_bool(S, loop, part):
                 return None
             return h
         for i in range(3):
-            em.add_handler("ev", mk(i), priority=prio[i])
-        v0 = S.int("v0", -5, 5)
-        em.post_relay("ev", callback=lambda **kw: result.append(kw), v=v0)
+            if regkw[i]:
+                em.add_handler("ev", mk(i), priority=prio[i], k=10 + i)
+            else:
+                em.add_handler("ev", mk(i), priority=prio[i])
+        if bare:
+            # posted without any argument: the relayed arguments are entirely what the handlers return
+            v0 = 0
+            em.post_relay("ev", callback=lambda **kw: result.append(dict(kw, v=kw.get("v", 0))))
+        else:
+            v0 = S.int("v0", -5, 5)
+            em.post_relay("ev", callback=lambda **kw: result.append(kw), v=v0)
         em.process_event_queue()
+        for i, k in seen_k:
+            if k != (10 + i if regkw[i] else None):
+                raise Violation("registered-kwargs-override-posted", "_run_handlers", "relay handler %d saw k=%s (registered kwargs: %s)" % (i, k, regkw[i]))
         order = sorted(range(3), key=lambda i: -prio[i])
         cur = v0
         cur_w = None
@@ -230,6 +246,51 @@ def body_relay_bool(S, loop, part):
             raise Violation("boolean-reports-false", "_run_handlers", "callback reports False although no handler returned False")
     S.note("nontrivial", len(seen) > 0)
     S.note("type", part["type"])
+
+
+def body_abort(S, loop, part):
+    """EventManager.stop() (machine shutdown) while a queue event is parked on a wait: the event was never completed, so its
+    completion callback must not run and the handlers behind the wait must not start."""
+    from mpf.core.events import EventManager
+    S.now_symbolic(loop)
+    m = stubs.StubMachine(loop)
+    em = EventManager(m)
+    m.events = em
+    log = []
+    d = S.real("clear_after", 0, 1)
+    t_stop = S.real("stop_at", 0, 1.5)
+    S.assume(d != t_stop)
+    kind = part["kind"]
+    if kind == 2:
+        async def co(**kwargs):
+            log.append("h1")
+            await asyncio.sleep(d)
+            log.append("c1")
+        em.add_async_handler("ev", co, priority=10)
+    else:
+        def h1(queue, **kwargs):
+            log.append("h1")
+            queue.wait()
+
+            def clr():
+                log.append("c1")
+                queue.clear()
+            loop.call_later(d, clr)
+        em.add_handler("ev", h1, priority=10)
+    em.add_handler("ev", lambda **kwargs: log.append("h2"), priority=5)
+    em.post_queue("ev", lambda **kwargs: log.append("cb"))
+    loop.call_later(t_stop, em.stop)
+    loop.run_for(5)
+    if t_stop < d:
+        if "cb" in log or "h2" in log:
+            raise Violation("callback-only-after-all-handlers-and-waits", "_run_handlers_sequential",
+                            "event manager stopped at +%s while the wait (cleared at +%s) was outstanding, yet %s; log %s" % (
+                                t_stop, d, "the completion callback ran" if "cb" in log else "the next handler ran", log))
+    else:
+        if log.count("cb") != 1 or log.count("h2") != 1 or log.index("h2") > log.index("cb"):
+            raise Violation("callback-exactly-once", "_run_handlers_sequential", "log %s" % log)
+    S.note("nontrivial", "h1" in log)
+    S.note("stopped_before_clear", bool(t_stop < d))
 
 
 def setup_modes(part):
@@ -296,12 +357,14 @@ def scenarios(tier):
                 qparts.append(dict(kinds=[k0, k1, (k0 + k1) % 3 if tier == "quick" else 1], nested_from=nf, cond=[bool(n & 1), bool(n & 2)]))
     if tier != "quick":
         qparts += [dict(kinds=[k0, k1, k2], nested_from=nf) for k0 in range(3) for k1 in range(3) for k2 in (0, 2) for nf in (None, 0, 1)]
-    rparts = [dict(type="relay", newkey=[False, False, False]), dict(type="relay", newkey=[True, False, False]), dict(type="relay", newkey=[False, True, False]),
+    rparts = [dict(type="relay", newkey=[False, False, False], bare=True), dict(type="relay", newkey=[True, False, False], bare=True),
+              dict(type="relay", newkey=[False, False, False]), dict(type="relay", newkey=[True, False, False]), dict(type="relay", newkey=[False, True, False]),
               dict(type="relay", newkey=[True, False, True]), dict(type="boolean")]
     if tier != "quick":
         rparts.append(dict(type="relay"))
     mparts = [dict(mode="mwait"), dict(mode="mplain")]
     pb = 50 if tier == "quick" else 240
     return [Scenario("queue", setup, body_queue, qparts, teardown=teardown, part_budget=pb, per_path_timeout=30),
+            Scenario("abort", setup, body_abort, [dict(kind=1), dict(kind=2)], teardown=teardown, part_budget=pb, per_path_timeout=30),
             Scenario("relay_boolean", setup, body_relay_bool, rparts, teardown=teardown, part_budget=pb, per_path_timeout=30),
             Scenario("mode_wait_queue", setup_modes, body_modes, mparts, teardown=teardown_modes, part_budget=pb, per_path_timeout=30)]
